@@ -37,12 +37,19 @@ static const Op* CUR_OP = 0; static const Query* CUR_Q = 0;     // the step bein
 static int CUR_CLS = -1, CUR_OCLS = -1;
 static std::string CUR_SIG, CUR_OSIG;      // status signatures of the receiver / operand of the step being judged
 static std::string auto_trigger(const std::string& clause);       // shapes_triggers.hh
+static bool LAST_BAD = false;                 // the result of the current step has a NaN / -inf matrix entry
+static std::vector<int> CUR_PIECES;           // classes of the exact result of the current step
+static int CUR_LOST = -1, CUR_AFTER = -1;     // the piece that is not enclosed / the class of the result
+static std::function<std::string()> LAZY_INPUT;                    // builds the "input" record of the current step on demand
+static const std::string LAZY = "@";
 static void viol(const std::string& site, const std::string& clause, const std::string& trig0, const std::string& inj,
                  const std::string& obs, const std::string& exp, const std::string& detail = "") {
   count(CNT_VIOL);
   std::string trig = trig0;
+  std::string inj_s = (inj == LAZY && LAZY_INPUT) ? LAZY_INPUT() : inj;
+  if (inj_s.size() > 7 && inj_s.compare(0, 7, "@after:") == 0) inj_s = J().raw("after", LAZY_INPUT ? LAZY_INPUT() : std::string("{}")).str("then", inj_s.substr(7)).done();
   if (trig == "none") { RefGuard guard; trig = auto_trigger(clause); }
-  if (violcap().admit(site + "|" + clause + "|" + trig)) report_violation(site, clause, trig, inj, obs, exp, detail);
+  if (violcap().admit(site + "|" + clause + "|" + trig)) report_violation(site, clause, trig, inj_s, obs, exp, detail);
 }
 static std::string site_of(const std::string& opname) { return DOM() + "::" + opname.substr(0, opname.find('(')); }
 
@@ -50,6 +57,7 @@ static std::string site_of(const std::string& opname) { return DOM() + "::" + op
 static int gamma_cls(const D& x, const std::string& site, const std::string& inj) {
   BAD_ENTRY = false;
   Cell g = A::gamma(x);
+  if (BAD_ENTRY) LAST_BAD = true;
   if (BAD_ENTRY) viol(site, "invariant:matrix-entry-nan-or-minus-infinity", "none", inj, "NaN/-inf entry", "finite or +inf entries");
   RefGuard guard;
   return CL.classify(g);
@@ -113,12 +121,14 @@ static void terminal_layer(D& r, int cls, const std::string& site, const std::st
     if (!QS[qi].terminal) continue;
     PD c(A::clone(r));
     std::string got = run_query(QS[qi], *c, 0);
-    judge_query(qi, got, cls, -1, site, J().raw("after", inj).str("then", QS[qi].name).done());
-    int c2 = gamma_cls(*c, site, inj);
+    judge_query(qi, got, cls, -1, site, "@after:" + QS[qi].name);
     count(CNT_CHECKS);
+    if (A::same_repr(*c, r)) continue;
+    int c2 = gamma_cls(*c, site, inj);
     if (!same_value(cls, c2)) viol(site, "value:changed-by-" + QS[qi].name, "none", inj, cellstr(c2), cellstr(cls), witness_outside(cls, c2));
   }
   // minimized_constraints() on a clone, constraints() on the object itself
+  PD orig(A::clone(r));
   for (int which = 0; which < 2; ++which) {
     PD c; D* x = &r; if (which == 0) { c.reset(A::clone(r)); x = c.get(); }
     const char* nm = which == 0 ? "minimized_constraints" : "constraints";
@@ -129,7 +139,7 @@ static void terminal_layer(D& r, int cls, const std::string& site, const std::st
     count(CNT_CHECKS, 2);
     bool fine = CFG.c04 ? cm == cls : cls_subset(cls, cm);
     if (!fine) { TrigIn t{0, 0, cls, -1, std::string("value:") + nm + "!=gamma"}; viol(site, std::string("value:") + nm + "!=gamma", trigger_for(t), inj, cellstr(cm), cellstr(cls), witness_outside(cls, cm)); }
-    int c2 = gamma_cls(*x, site, inj);
+    int c2 = A::same_repr(*x, *orig) ? cls : gamma_cls(*x, site, inj);
     if (!same_value(cls, c2)) viol(site, std::string("value:changed-by-") + nm, "none", inj, cellstr(c2), cellstr(cls), witness_outside(cls, c2));
     if (which == 0 && CFG.c04 && fine && !cls_empty(cls)) {
       // no redundant row
@@ -161,7 +171,9 @@ static std::unordered_map<std::string, std::string> CUSTMEMO, RETMEMO;
 static int check_op_result(int cls, int ocls, size_t oi, D& p, const std::string& ret, const std::string& inj, bool do_terminal) {
   const Op& op = OPS[oi];
   std::string site = site_of(op.name);
+  LAST_BAD = false; CUR_PIECES.clear(); CUR_LOST = -1;
   int after = gamma_cls(p, site, inj);
+  LAST_BAD = BAD_ENTRY; CUR_AFTER = after;
   const Cell* ocell = ocls >= 0 ? &CL[ocls] : 0;
   std::string base = std::to_string(cls) + "|" + std::to_string(ocls) + "|" + std::to_string(oi);
   count(CNT_CHECKS);
@@ -186,9 +198,10 @@ static int check_op_result(int cls, int ocls, size_t oi, D& p, const std::string
       it = WANTMEMO.insert(std::make_pair(base, w)).first;
     }
     const WantInfo& w = it->second;
+    CUR_PIECES = w.pieces;
     bool lost = false;
     for (size_t i = 0; i < w.pieces.size() && !lost; ++i) if (!cls_subset(w.pieces[i], after)) {
-      lost = true;
+      lost = true; CUR_LOST = w.pieces[i];
       TrigIn t{&op, 0, cls, ocls, "enclosure:result-loses-points"};
       RefGuard guard;
       viol(site, "enclosure:result-loses-points", trigger_for(t), inj, cellstr(after), "superset of " + cellstr(w.pieces[i]), witness_outside(w.pieces[i], after) + " is in the exact result");
@@ -245,14 +258,14 @@ static void phase_a() {
         D* c = A::clone(*ST[s].obj);
         CUR_SIG = ST[s].sig; CUR_OSIG.clear(); CUR_OP = &op; CUR_Q = 0; CUR_CLS = ST[s].cls; CUR_OCLS = -1;
         if (s < 64) check_clone(*ST[s].obj, *c);
-        std::string inj;
+        LAZY_INPUT = [s, &op]() { return input_json((int)s, op.name, -1); };
         try { op.apply(*c, 0); }
         catch (const std::exception& ex) {
-          viol(site_of(op.name), "unexpected-exception", "none", input_json((int)s, op.name, -1), ex.what(), "no exception");
+          viol(site_of(op.name), "unexpected-exception", "none", LAZY, ex.what(), "no exception");
           delete c; continue;
         }
         ++TRANS_A;
-        int ncls = check_op_result(ST[s].cls, -1, oi, *c, "", input_json((int)s, op.name, -1), false);
+        int ncls = check_op_result(ST[s].cls, -1, oi, *c, "", LAZY, false);
         add_state(c, ST[s].dim, ncls, (int)s, (int)oi, op.observer ? d : d + 1);
       }
     }
